@@ -524,3 +524,7 @@ def run(ctx):
             ctx.require(n2 >= 20, "R3.dfree(%s): only %d functions analysed" % (g, n2))
             extra = sorted(set(sk2) - known)
             ctx.require(not extra, "R3.dfree(%s): %s exceed(s) the state budget" % (g, ", ".join(extra)))
+    from rules import r9msgbuf
+    ctx.rule("R9.msgbuf", "library: every sprintf / strcpy / strcat into a character array of constant size produces at most size-1 "
+             "characters (format widths by C type, %s by the bound of its argument; unbounded arguments fail)")
+    r9msgbuf.check(ctx, ctx.program(groups=["lib"]), "R9.msgbuf", 20)
